@@ -8,7 +8,7 @@ from simkit.session import Result, jdump, signature
 PROPERTY = "C07"
 ENGINE = "fsbox"
 LEVEL = "fault_enumeration"
-BUDGET = {"quick": (2500, 60), "thorough": (120000, 540)}
+BUDGET = {"quick": (6000, 60), "thorough": (120000, 540)}
 RULE = ("fault grid enumerated completely in both tiers: document defect {none, warnings only, Section "
         "type cleared, duplicate ids, duplicate sibling names} x serialisation failure {none, "
         "unsupported rdf_format, control character in name/value/definition, attribute object json "
